@@ -776,9 +776,16 @@ class Inventory:
         if s.kind == "precond":
             o = s.via
             od = (o.desc or o.detail) if isinstance(o, Site) else o
-            if isinstance(o, Site) and o.kind == "panic" and not o.desc and not PANIC_FNS.search(o.detail or ""):
-                od = "%s>core::panicking::panic_fmt" % o.detail     # a panic raised through a function that never returns
-            return "precond:%s<-%s(%s)" % (_short(s.detail), od, ops)
+            if isinstance(o, Site) and o.kind == "panic" and not o.desc and o.fn in self.analyses and o.fn in self.cg.bodies:
+                # the panic a precondition guards is named as it would be where it stands (macro and switch context),
+                # not by the runtime function it ends in
+                if o.swctx is None:
+                    o.swctx = switch_context(self.cg.bodies[o.fn], o.block)
+                od = self.describe(self.analyses[o.fn], o)
+            callee = _short(s.detail)
+            if isinstance(o, Site) and o.kind == "panic" and o.fn != s.detail:
+                callee += "@" + _short(o.fn)        # the panic sits deeper than the function called here: name where
+            return "precond:%s<-%s(%s)" % (callee, od, ops)
         d = s.detail if s.kind in ("assert", "ubcheck") else "%s:%s" % (s.kind, _short(s.detail))
         return self._name_captures(s.fn, "%s(%s)" % (d, ops))
 
